@@ -65,6 +65,8 @@ def euler(f, n=8, mode='constant'):
     if f.dtype is not np.bool_:
         assert np.all( (f == 0) | (f == 1)), 'mahotas.euler: Non-binary image'
         f = (f != 0)
+    # one extra (empty) row and column so that the 2x2 windows hanging over the bottom/right edge are counted too
+    f = np.pad(f, [(0, 1)] * f.ndim)
     value = convolve(f.astype(_powers.dtype, copy=False), _powers, mode=mode)
     return lookup[value].sum()
 
